@@ -158,6 +158,19 @@ def close_pool():
         _pool = None
 
 
+def _outer_quantifiers(e, out, seen):
+    k = e.get_id()
+    if k in seen:
+        return
+    seen.add(k)
+    if z3.is_quantifier(e):
+        out.append(e)
+        return
+    if z3.is_app(e):
+        for c in e.children():
+            _outer_quantifiers(c, out, seen)
+
+
 def ground(e, lo, hi, cache=None):
     """expand integer quantifiers over the finite range [lo, hi] (exact for range-guarded quantifiers)"""
     if cache is None:
@@ -165,27 +178,29 @@ def ground(e, lo, hi, cache=None):
     k = e.get_id()
     if k in cache:
         return cache[k]
-    if z3.is_quantifier(e):
-        n = e.num_vars()
-        if not all(e.var_sort(i) == z3.IntSort() for i in range(n)) or e.is_lambda():
-            cache[k] = e          # quantifier over sequences / tuples (structural axiom): left as it is
-            return e
+    qs = []
+    _outer_quantifiers(e, qs, set())
+    pairs = []
+    for q in qs:
+        n = q.num_vars()
+        if not all(q.var_sort(i) == z3.IntSort() for i in range(n)) or q.is_lambda():
+            continue          # quantifier over sequences / tuples (structural axiom): left as it is
         insts = []
-        body = e.body()
+        body = q.body()
         for combo in itertools.product(range(lo, hi + 1), repeat=n):
             vals = [z3.IntVal(c) for c in combo]
             b = z3.simplify(z3.substitute_vars(body, *reversed(vals)))
-            if z3.is_true(b) and e.is_forall() or z3.is_false(b) and e.is_exists():
+            if (z3.is_true(b) and q.is_forall()) or (z3.is_false(b) and q.is_exists()):
                 continue
             insts.append(ground(b, lo, hi, cache))
-        r = z3.And(*insts) if e.is_forall() else z3.Or(*insts)
         if not insts:
-            r = z3.BoolVal(e.is_forall())
-    elif z3.is_app(e) and e.num_args() > 0:
-        ch = [ground(c, lo, hi, cache) for c in e.children()]
-        r = e.decl()(*ch) if any(a.get_id() != b.get_id() for a, b in zip(ch, e.children())) else e
-    else:
-        r = e
+            r = z3.BoolVal(q.is_forall())
+        elif len(insts) == 1:
+            r = insts[0]
+        else:
+            r = z3.And(*insts) if q.is_forall() else z3.Or(*insts)
+        pairs.append((q, r))
+    r = z3.substitute(e, *pairs) if pairs else e
     cache[k] = r
     return r
 
